@@ -300,13 +300,16 @@ func genSCase(rt *rapid.T) *SCase {
 			op.Field = rx.Uniform(rt, nf, "field")
 		}
 		op.Val = i + 1
-		kinds := []string{"write", "write", "write", "read", "addeq", "inc", "call_set", "call_get", "methodvalue", "alias", "dump"}
+		kinds := []string{"write", "write", "write", "read", "addeq", "inc", "call_set", "call_get", "methodvalue", "alias", "dump", "copyadd", "copyadd"}
 		op.Op = rx.Pick(rt, "sop", kinds...)
 		if nf == 0 && op.Op != "alias" && op.Op != "dump" {
 			op.Op = "dump"
 		}
 		if op.Op == "alias" {
 			op.Inst2 = rx.Uniform(rt, c.NInst, "inst2")
+		}
+		if op.Op == "copyadd" {
+			op.Inst2 = rx.Uniform(rt, c.NInst+1, "src")
 		}
 		c.Ops = append(c.Ops, op)
 	}
@@ -491,6 +494,26 @@ func (c *SCase) build() (string, string) {
 				stmt("%s.%s++", v, c.Fields[fi].Name)
 				st[fi].add++
 			}
+		case "copyadd":
+			// the same field of another variable (another instance, or an alias of this one) plus a constant
+			src := names[op.Inst2]
+			sst := store[ref[op.Inst2]]
+			switch c.Fields[fi].Type {
+			case "int", "byte", "float64":
+				stmt("%s.%s = %s.%s + 2", v, c.Fields[fi].Name, src, c.Fields[fi].Name)
+				st[fi] = sst[fi]
+				st[fi].add += 2
+			case "string":
+				stmt("%s.%s = %s.%s + \"+\"", v, c.Fields[fi].Name, src, c.Fields[fi].Name)
+				st[fi] = sst[fi]
+				st[fi].add++
+			default:
+				stmt("%s.%s = %s.%s", v, c.Fields[fi].Name, src, c.Fields[fi].Name)
+				st[fi] = sst[fi]
+			}
+			// the source is printed too: it must be unchanged
+			stmt("fmt.Println(\"src\", %d, %s.%s)", n, src, c.Fields[fi].Name)
+			out("src %d %s", n, c.show(fi, store[ref[op.Inst2]][fi]))
 		case "call_set":
 			stmt("%s.Set%d(%s)", v, fi, valLit(c.Fields[fi].Type, op.Val))
 			st[fi] = fstate{set: true, v: op.Val}
